@@ -3,7 +3,7 @@ import copy
 
 import numpy as np
 
-from vlib import probe
+from vlib import gen, probe
 from vlib.probe import COL
 from vlib.refs import fitswcs as F
 from vlib.refs import sphere as S
@@ -429,7 +429,7 @@ def run_case(case):
         x, y = positions(rng, h, n)
         dist = bool(rng.random() < .7)
         if op == "image2sky":
-            res, e = probe.attempt(w.image2sky, x, y, distort=dist)
+            res, e = probe.attempt(w.image2sky, gen.maybe_view(rng, x), gen.maybe_view(rng, y), distort=dist)
             if e is not None:
                 key = "sip/distort-false-unboundlocal" if kind == "sip" and not dist and isinstance(e, UnboundLocalError) else None
                 COL.violation("C10.forward", "image2sky(array, distort=%s) raised %s: %s" % (dist, type(e).__name__, str(e)[:120]), wit, key=key)
@@ -446,7 +446,7 @@ def run_case(case):
             # the sky positions of known pixels, from the reference (not from the object under test)
             lon, lat = F.image2sky(h, x, y, distort=(True if (find and kind != "tan") else dist))
             lon, lat = np.asarray(lon, dtype="f8"), np.asarray(lat, dtype="f8")
-            res, e = probe.attempt(w.sky2image, lon.copy(), lat.copy(), distort=dist, find=find)
+            res, e = probe.attempt(w.sky2image, gen.maybe_view(rng, lon.copy()), gen.maybe_view(rng, lat.copy()), distort=dist, find=find)
             if e is not None:
                 COL.violation("C10.inverse", "sky2image(array, find=%s, distort=%s) raised %s: %s" % (find, dist, type(e).__name__, str(e)[:120]), wit)
                 continue
@@ -456,7 +456,7 @@ def run_case(case):
             else:
                 COL.ok("C10.scalar-array", (kind, "sky2image", find, dist))
         else:
-            res, e = probe.attempt(w.get_jacobian, x, y, distort=dist)
+            res, e = probe.attempt(w.get_jacobian, gen.maybe_view(rng, x), gen.maybe_view(rng, y), distort=dist)
             if e is not None:
                 key = "sip/distort-false-unboundlocal" if kind == "sip" and not dist and isinstance(e, UnboundLocalError) else None
                 COL.violation("C10.jacobian", "get_jacobian raised %s: %s" % (type(e).__name__, str(e)[:120]), wit, key=key)
